@@ -26,7 +26,7 @@ Proof.
   cbn [store_from]. specialize (IH pv vals bid (mwrite m (align_if (pt <? pal p) (pal p) a) (concat f))
                                    (align_if (pt <? pal p) (pal p) a + Z.of_nat (length f) * psz p)).
   destruct (store_from L pv vals bid _ _) as [[m2 evs2] e]. cbn [fst snd] in *.
-  apply no_alloc_app; auto. destruct (ntc p); [|reflexivity]. apply no_alloc_obj_events. reflexivity.
+  apply no_alloc_app; auto. destruct (ntc _ p); [|reflexivity]. apply no_alloc_obj_events. reflexivity.
 Qed.
 
 Lemma destruct_fields_no_alloc L : forall fl bid m, no_alloc (snd (destruct_fields L fl bid m)).
@@ -95,16 +95,16 @@ Ltac split_ifs :=
 Theorem erase_no_alloc L v i : all_triv L = true ->
   no_alloc (snd (erase L v i)) /\ v_bid (fst (erase L v i)) = v_bid v.
 Proof.
-  intros Ht. unfold all_triv in Ht. apply andb_true_iff in Ht. destruct Ht as [Hc Hd].
-  unfold erase, destruct_elem, move_forward. rewrite Hc, Hd. cbn [andb].
+  intros Ht. pose proof Ht as Ht'. unfold all_triv in Ht'. apply andb_true_iff in Ht'. destruct Ht' as [Hc Hd].
+  unfold erase, destruct_elem, move_forward. rewrite Ht, Hd.
   unfold move_forward_triv. split_ifs; cbn [fst snd]; (split; [reflexivity|rewrite resize_bid; reflexivity]).
 Qed.
 
 Theorem erase_range_no_alloc L v i j : all_triv L = true ->
   no_alloc (snd (erase_range L v i j)) /\ v_bid (fst (erase_range L v i j)) = v_bid v.
 Proof.
-  intros Ht. unfold all_triv in Ht. apply andb_true_iff in Ht. destruct Ht as [Hc Hd].
-  unfold erase_range, move_forward. rewrite Hc, Hd. cbn [andb].
+  intros Ht. pose proof Ht as Ht'. unfold all_triv in Ht'. apply andb_true_iff in Ht'. destruct Ht' as [Hc Hd].
+  unfold erase_range, move_forward. rewrite Ht, Hd.
   unfold move_forward_triv. split_ifs; cbn [fst snd]; (split; [reflexivity|rewrite resize_bid; reflexivity]).
 Qed.
 
